@@ -22,7 +22,7 @@ func init() {
 		Trusted:     trustedCommon,
 	})
 	reg("C20", &PropSpec{
-		Rules:       []Rule{r("E3i", RuleE3i), r("E3ii", RuleE3ii), r("NI", RuleNI("uniqURLPath", "similarPaths", "onlyOneProtocolIntoURL", "expandingMacros", "processedUserTypes", "processedByAllOf")), r("G2", RuleG2), r("OP1", RuleOP1), r("PA1", RulePA1)},
+		Rules:       []Rule{r("E3i", RuleE3i), r("E3ii", RuleE3ii), r("NI", RuleNI("uniqURLPath", "similarPaths", "onlyOneProtocolIntoURL", "expandingMacros", "processedUserTypes", "processedByAllOf")), r("G2", RuleG2), r("OP1", RuleOP1), r("PA1", RulePA1), r("R4", RuleR4), r("K2p", RuleK2p)},
 		Explanation: "Decided over every run-wide memo and uniqueness set of the core: a cached value depends on nothing its key does not cover (E3i: known finding F11) and a visited set carries no caller-owned accumulator (E3ii: known finding F13); the uniqueness sets are read only by lookups whose outcome is an error return (or, for visited sets, skipping work), so a fresh, non-colliding declaration cannot change another entry through them (NI); no package-level state (G2) and no state shared through option closures (OP1). Not decided: coupling through the schema objects that receive all types and rules (library behaviour); entry-by-entry equality of two catalogs.",
 		Trusted:     trustedCommon,
 	})
